@@ -88,7 +88,7 @@ Definition succs (G : list edge) (front : list N) : list N :=
   fold_right (fun e acc => if nmem (fst e) front && negb (nmem (snd e) acc) then snd e :: acc else acc) front G.
 Fixpoint closure (n : nat) (G : list edge) (front : list N) : list N :=
   match n with O => front | S k => closure k G (succs G front) end.
-Definition on_cycle (G : list edge) (e : edge) : bool := nmem (fst e) (closure (length G) G [snd e]).
+Definition on_cycle (G : list edge) (e : edge) : bool := nmem (fst e) (closure (List.length G) G [snd e]).
 Definition lk_order_report : list (string * string * list string) :=
   map (fun e => (obj_name (fst e) lk_objects, obj_name (snd e) lk_objects,
                  map fst (filter (fun p => emem e (fn_edges lk_fuel (snd p))) lk_ok_fns)))
